@@ -283,6 +283,10 @@ func call(r *core.Rand, o Opts, depth int) string {
 	case "pow", "log":
 		args = append(args, strconv.Itoa(r.Range(2, 10)))
 	}
+	if r.Chance(o.Odd, 30) {
+		// too few arguments: any prefix of the usual list
+		args = args[:r.Intn(len(args)+1)]
+	}
 	if r.Chance(o.Odd, 50) {
 		// surplus arguments
 		for k := r.Range(1, 3); k > 0; k-- {
